@@ -101,9 +101,9 @@ Section Idem.
   Variable elem : bytes.
   Variable aps : amap (list (attr_policy M)).
 
-  Notation Fa := (filter_attr I p elem aps false).
+  Notation Fa := (filter_attr I p elem aps (has_style_policies I p elem)).
 
-  Hypothesis Hstyle : has_style_policies I p elem = false.
+  Hypothesis Hstyle : style_stable M U R I p elem.
   (* the policy accepts, whatever the value, each forced attribute that a pass can write on this element *)
   Hypothesis Hrel : mem elem link_rel_elements = true -> forall v, Fa (REL, v) = [(REL, v)].
   Hypothesis Htarget : beqb elem (B"a") = true -> forall v, Fa (TARGET, v) = [(TARGET, v)].
@@ -120,8 +120,7 @@ Section Idem.
   Lemma F_kept l : Forall kept (flat_map Fa l).
   Proof.
     apply Forall_forall. intros a Ha. apply in_flat_map in Ha as (a0 & _ & Ha).
-    destruct (filter_attr_cases M U R I p elem aps a0 Hstyle) as [E|E]; rewrite E in Ha; [|contradiction].
-    destruct Ha as [<-|[]]. exact E.
+    exact (filter_attr_kept M U R I p elem aps a0 a Hstyle Ha).
   Qed.
 
   Lemma U_kept l : Forall kept l -> Forall url_kept (flat_map (url_pass_attr I p elem) l).
@@ -161,7 +160,7 @@ Section Idem.
   Theorem sanitize_attrs_idem_forced_accepted attrs :
     sanitize_attrs I p elem (sanitize_attrs I p elem attrs aps) aps = sanitize_attrs I p elem attrs aps.
   Proof.
-    pose proof (sanitize_attrs_unfold M U R I p elem aps Hstyle Hnosandbox) as Unf.
+    pose proof (sanitize_attrs_unfold M U R I p elem aps Hnosandbox) as Unf.
     rewrite (Unf attrs). destruct attrs as [|a0 ar]; [reflexivity|].
     remember (flat_map Fa (a0 :: ar)) as c0 eqn:Ec0.
     assert (S0 : Forall kept c0) by (subst c0; apply F_kept).
@@ -229,11 +228,11 @@ Section Decide.
     destruct ap; [discriminate | reflexivity].
   Qed.
 
-  Lemma accepted_sound elem aps k v : has_style_policies I p elem = false -> accepted_b aps k = true ->
-    filter_attr I p elem aps false (k, v) = [(k, v)].
+  Lemma accepted_sound elem aps hsp k v : key_is (B"style") (k, v) = false -> accepted_b aps k = true ->
+    filter_attr I p elem aps hsp (k, v) = [(k, v)].
   Proof.
-    intros _ H. unfold filter_attr. destruct (allowDataAttributes p && is_data_attribute (akey (k, v))); [reflexivity|].
-    rewrite andb_false_r. unfold accepted_b in H. apply orb_true_iff in H as [H|H].
+    intros Hk H. unfold filter_attr. destruct (allowDataAttributes p && is_data_attribute (akey (k, v))); [reflexivity|].
+    rewrite Hk. cbn [andb]. unfold accepted_b in H. apply orb_true_iff in H as [H|H].
     - rewrite (unpatterned_accepts k aps v H). reflexivity.
     - destruct (rules_accept I aps (k, v)); [reflexivity|]. rewrite (unpatterned_accepts k _ v H). reflexivity.
   Qed.
@@ -241,7 +240,7 @@ Section Decide.
   Hypothesis Hrw : srcRewriter p = None.
   Hypothesis Hstable : forall raw u, valid_url I p raw = Some u -> valid_url I p u = Some u.
 
-  Theorem elem_stable2_sound elem aps a : has_style_policies I p elem = false -> elem_stable2_b elem aps = true ->
+  Theorem elem_stable2_sound elem aps a : style_stable M U R I p elem -> elem_stable2_b elem aps = true ->
     clean_attrs I p elem (clean_attrs I p elem a aps) aps = clean_attrs I p elem a aps.
   Proof.
     intros Hs Hb. unfold elem_stable2_b in Hb. apply orb_true_iff in Hb as [Hb|Hb].
@@ -251,9 +250,9 @@ Section Decide.
       assert (E : forall l, clean_attrs I p elem l aps = sanitize_attrs I p elem l aps).
       { intros l. unfold clean_attrs. destruct l; reflexivity. }
       rewrite !E. apply sanitize_attrs_idem_forced_accepted; auto.
-      + intros He v. rewrite He in Hr. cbn [negb orb] in Hr. apply accepted_sound; assumption.
-      + intros He v. rewrite He in Ht. cbn [negb orb] in Ht. apply accepted_sound; assumption.
-      + intros He v. rewrite He in Hc. cbn [negb orb] in Hc. apply accepted_sound; assumption.
+      + intros He v. rewrite He in Hr. cbn [negb orb] in Hr. apply accepted_sound; [reflexivity | assumption].
+      + intros He v. rewrite He in Ht. cbn [negb orb] in Ht. apply accepted_sound; [reflexivity | assumption].
+      + intros He v. rewrite He in Hc. cbn [negb orb] in Hc. apply accepted_sound; [reflexivity | assumption].
       + apply (url_unpatterned_sound M U R I p); assumption.
       + apply (no_sandbox_sound M U R p); exact H3.
   Qed.
